@@ -8,13 +8,13 @@ from harness import core, docgen, inputs, trees
 GEN = ['gen_tables']
 THEOREMS = ['C09_plain_lines', 'C09_span_verbatim', 'C09_html_block_verbatim', 'C09_blank_lines_kept', 'C09_definitions_in_place',
             'C09_prefix_lines', 'C09_prefix_count', 'C09_fragment_round_trip', 'C09_fragment_round_trip_text', 'C09_outline_round_trip', 'C09_fragment_round_trip_hypotheses',
-            'C09_fragment_round_trip_needs_side_conditions']
+            'C09_fragment_round_trip_former_findings']
 TRUSTED = ['Model/MarkdownRenderer.v: hand-written model of markdown_renderer.py, tied by X-md (the real renderer vs the extracted model on parsed trees)',
            'the document generator, the finding classifiers (oracle side)']
 ASSUMPTIONS = ['unbounded theorem on the fragment of Spec/Fragment.v (one-line plain paragraphs, fenced code, quotes, single-item lists; any size and depth): '
                'parse with the Markdown token sets then render without a line limit is the identity on the spelled text (C09_fragment_round_trip), hence same meaning, '
-               'fixed point and exact normal form there; its two side conditions (fence not empty, code lines not starting with white space) are necessary - the '
-               'statement is refuted without them by kernel evaluation - and are the recorded findings kf_md_empty_fence / kf_md_ws_line_in_code',
+               'fixed point and exact normal form there, with no side condition: the two the proof first forced (fence not empty, code lines not starting with white '
+               'space) were renderer defects, now repaired (fix: 50fc060, 1070095)',
                'the same identity is proved on tight nested bullet lists written one item per line (C09_outline_round_trip; any size, depth, bullet, padding, indentation)',
                'beyond the fragment the three clauses of the property (same meaning, idempotent, exact on normal form) are decided by the oracle on the implementation; '
                'what is proved there is the renderer half (verbatim emission) for all token trees: PARTIAL',
@@ -44,14 +44,6 @@ def classify(text, w, norm, passes_without_normalize):
         for n in nodes:
             if n[0] == 19 and (n[3] != len(n[1]) + 1 or n[2] != 0):
                 return 'kf_md_normalize_list_padding'
-    for n in nodes:
-        if n[0] == 17 and n[5] == '':
-            return 'kf_md_empty_fence'
-    for n in nodes:
-        if n[0] in (16, 17):
-            content = n[1] if n[0] == 16 else n[5]
-            if any(l != '' and l.strip(' \t') == '' for l in content.split('\n')):
-                return 'kf_md_ws_line_in_code'
     for n in nodes:
         if n[0] == 19 and (not n[5] or n[5][0][0] == 26):
             return 'kf_md_empty_list_item'
@@ -109,12 +101,8 @@ def worker(args):
 
 
 def frag_rt_ok(t):
-    """rt_ok of Proofs/RoundTrip.v: no empty fence, no code line that begins (after spaces) with a white-space character"""
-    if t[0] in ('p', 'h'):
-        return True
-    if t[0] == 'f':
-        return bool(t[2]) and all(l == '' or not l.lstrip(' ')[:1].isspace() for l in t[2])
-    return all(frag_rt_ok(k) for k in t[-1])
+    """the round-trip theorem on the fragment has no side condition any more (two renderer defects repaired)"""
+    return True
 
 
 def frag_worker(args):
